@@ -228,6 +228,36 @@ def scan_manager_fields(repo, tier, seed):
     return [_ob("loky.process_executor:_ExecutorManagerThread:structural/table-references-assigned-in-the-constructor-only", ok, f"assignments: {sorted(writers)}")]
 
 
+def scan_table_snapshots(repo, tier, seed):
+    """The worker table is mutated by the manager thread, by submit() and by _resize(): every loop / comprehension over it runs on a snapshot
+    (list(...)), never on the live dict (a concurrent insertion or removal raises 'dictionary changed size during iteration' in whoever iterates:
+    the manager thread dies before terminate_broken, or get_reusable_executor() raises)."""
+    import re
+    # an attribute (self.processes, executor._processes) iterated directly, or .values()/.items()/.keys() of the table under any name;
+    # a bare local name `processes` is a snapshot taken earlier
+    pat = re.compile(r"(\._?processes$)|((^|\.)_?processes\.(values|items|keys)\(\)$)")
+    bad, good = [], 0
+    for rel in ("loky/process_executor.py", "loky/reusable_executor.py", "loky/backend/utils.py"):
+        tree = _scan(repo, rel)
+        for n in _ast.walk(tree):
+            iters = []
+            if isinstance(n, _ast.For):
+                iters.append(n.iter)
+            elif isinstance(n, (_ast.ListComp, _ast.SetComp, _ast.GeneratorExp, _ast.DictComp)):
+                iters += [g.iter for g in n.generators]
+            for it in iters:
+                txt = _ast.unparse(it)
+                if pat.search(txt):
+                    bad.append(f"{rel}:{it.lineno}: {txt}")
+                elif isinstance(it, _ast.Call) and _ast.unparse(it.func) in ("list", "tuple", "sorted") and it.args and pat.search(_ast.unparse(it.args[0])):
+                    good += 1
+    ob = _ob("loky.process_executor:<module>:structural/worker-table-iterated-through-snapshots-only", not bad and good >= 1,
+             f"live iterations: {bad}; snapshot iterations: {good}")
+    if bad and any("process_executor.py" in b and "_processes.items()" in b for b in bad):
+        ob["replay"] = {"harness": "live_table_iteration", "inputs": {}}
+    return [ob]
+
+
 def scan_after_fork_hook(repo, tier, seed):
     """C05 (fork start method): a forked worker inherits the parent's registry of manager threads, whose entries hold a copy of the shutdown lock that
     submit() holds while it spawns; the worker's own _python_exit() at exit would block on it for ever. The module registers an after-fork hook that must
@@ -273,7 +303,7 @@ PROPS["C02"] = dict(
                 "the feeder and user threads (A-atomic); futures already resolved are untouched only in the sense that no set_result/other set_exception occurs.",
     assumptions=["A-atomic", "A-kernel", "A-alias", "A-pids", "A-posix"],
     abstractions=EXEC_ABS,
-    extra=[scan_manager_fields],
+    extra=[scan_table_snapshots, scan_manager_fields],
 )
 PROPS["C04"] = dict(
     proved="for every exception class a task can raise (any BaseException subclass, user classes included) the worker sends exactly one _ResultItem carrying the "
@@ -294,7 +324,7 @@ PROPS["C05"] = dict(
     not_covered="that results in flight are delivered before the manager leaves; sentinel/time-out races; termination of the sentinel loop; atexit ordering.",
     assumptions=["A-atomic", "A-alias", "A-pids", "A-posix"],
     abstractions=EXEC_ABS,
-    extra=[scan_manager_fields, scan_after_fork_hook],
+    extra=[scan_table_snapshots, scan_manager_fields, scan_after_fork_hook],
 )
 PROPS["C06"] = dict(
     proved="with kill_workers read true every pending future gets a ShutdownExecutorError, the pending map is emptied, no result is fabricated, every registered "
@@ -562,6 +592,7 @@ PROPS["C20"] = dict(
     not_covered="the cumulative statement itself (counts after N lifecycles), threads and zombies as observed by the OS, named semaphores (C13).",
     assumptions=["A-fds", "A-finalize", "A-atomic", "A-tracker-stable", "A-posix"],
     abstractions=EXEC_ABS,
+    extra=[scan_table_snapshots],
 )
 PROPS["C12"] = dict(
     proved="get_preparation_data starts the tracker first and ships its pid/descriptor as they are after that call; Popen._launch keeps that descriptor (inheritable) "
@@ -635,6 +666,7 @@ PROPS["C10"] = dict(
                 "before the resize (C03 routing is per task and unaffected by the size).",
     assumptions=["A-yield", "A-progress", "A-atomic", "A-pids", "A-posix"],
     abstractions=EXEC_ABS + ["interference at declared yield points (time.sleep in polling loops): the shared state named there is havocked"],
+    extra=[scan_table_snapshots],
 )
 
 
